@@ -103,6 +103,7 @@ type State struct {
 	bgCtx   *CtxObj
 	ghost   map[string]Value
 	auxs    map[auxKey]*AuxObj
+	hashApps map[string][]hashApp
 }
 
 func (in *Interp) newG(parent *G, fv *FuncV, args []Value, site string) *G {
@@ -255,6 +256,12 @@ func (in *Interp) pushCall(g *G, fv *FuncV, args []Value, retTo ssa.Value) {
 	if in.initPkg != nil && fn.Pkg != nil && fn.Pkg != in.initPkg && fn.Name() == "init" {
 		return // dependency initialisers are not executed (see initGlobalFn)
 	}
+	if o := fn.Origin(); o != nil && o != fn {
+		// instantiation of a generic function: intrinsics are keyed by the generic origin
+		if _, ok := intrinsics[o.String()]; ok {
+			name = o.String()
+		}
+	}
 	if h, ok := intrinsics[name]; ok {
 		in.noteStub(name)
 		res := h(in, g, fv, args)
@@ -262,6 +269,15 @@ func (in *Interp) pushCall(g *G, fv *FuncV, args []Value, retTo ssa.Value) {
 			g.top().setReg(retTo, res)
 		}
 		return
+	}
+	if h, ok := condIntrinsics[name]; ok {
+		if res, handled := h(in, g, fv, args); handled {
+			in.noteStub(name + " (symbolic input)")
+			if retTo != nil && len(g.frames) > 0 {
+				g.top().setReg(retTo, res)
+			}
+			return
+		}
 	}
 	if fn.Synthetic == "" || fn.Pkg != nil {
 		if ov, ok := in.overrides[name]; ok {
